@@ -1324,7 +1324,9 @@ def check_C02(tier):
 
 def component_sound(prop, tier, v):
     """ComponentSound(A, C1..Ck) for the globs of the lexeme families: TLC product (CompCheck.tla)"""
-    cases = L.family_cases(tier, [("core", 5), ("dots", 4)] if tier == "quick" else [("core", 6), ("dots", 5), ("case", 4)])
+    # (case, flags: components whose literals carry different case flags; root: components behind a rooting repetition)
+    cases = L.family_cases(tier, [("core", 5), ("dots", 4), ("case", 4), ("flags", 5), ("root", 5)] if tier == "quick"
+                           else [("core", 6), ("dots", 5), ("case", 5), ("flags", 6), ("root", 6)])
     # nested branches with separators in front of further components: where component programs end
     cases += L.nest_cases(tier, len(cases) + 1, quick_fraction=0.04)
     obs_path = L.observe(cases, "dfa,walk", "comp-" + tier)
